@@ -103,7 +103,8 @@ Record xshared := XS { x_lock : rw; x_val : Z }.
 Inductive xpc :=
 | XInv (o : aop)
 | XLock (o : aop)
-| XBody (o : aop)
+| XRead (o : aop)                (* plain read of value *)
+| XWrite (o : aop) (snap : Z)    (* plain write computed from what was read *)
 | XUnlock (w : bool) (r : aret).
 
 Definition x_writer (o : aop) : bool := match o with Sum => false | _ => true end.
@@ -115,18 +116,23 @@ Definition xstep (l : xpc) (s : xshared) : outcome xshared unit xpc aret :=
   | XLock o =>
       if x_writer o then
         if rw_writer lk || negb (Nat.eqb (rw_readers lk) 0) then Blocked
-        else Next (XBody o) (XS (RW true 0) (x_val s))
+        else Next (XRead o) (XS (RW true 0) (x_val s))
       else
         if rw_writer lk then Blocked
-        else Next (XBody o) (XS (RW false (S (rw_readers lk))) (x_val s))
-  | XBody o =>
+        else Next (XRead o) (XS (RW false (S (rw_readers lk))) (x_val s))
+  | XRead o =>
       match o with
-      | Add x => Next (XUnlock true RU) (XS lk (wadd (x_val s) x))
-      | Inc => Next (XUnlock true RU) (XS lk (wadd (x_val s) 1))
-      | Dec => Next (XUnlock true RU) (XS lk (wadd (x_val s) (-1)))
       | Sum => Next (XUnlock false (RZ (x_val s))) s
+      | _ => Next (XWrite o (x_val s)) s
+      end
+  | XWrite o snap =>
+      match o with
+      | Add x => Next (XUnlock true RU) (XS lk (wadd snap x))
+      | Inc => Next (XUnlock true RU) (XS lk (wadd snap 1))
+      | Dec => Next (XUnlock true RU) (XS lk (wadd snap (-1)))
+      | Sum => Fault
       | Reset => Next (XUnlock true RU) (XS lk 0)
-      | SumAndReset => Next (XUnlock true (RZ (x_val s))) (XS lk 0)
+      | SumAndReset => Next (XUnlock true (RZ snap)) (XS lk 0)
       | Store v => Next (XUnlock true RU) (XS lk v)
       end
   | XUnlock w r =>
@@ -135,5 +141,5 @@ Definition xstep (l : xpc) (s : xshared) : outcome xshared unit xpc aret :=
   end.
 
 Definition mutex_adder : machine xshared unit xpc aop aret :=
-  Machine (fun _ o => XInv o) xstep (fun l => match l with XBody _ => true | _ => false end).
+  Machine (fun _ o => XInv o) xstep (fun l => match l with XRead _ | XWrite _ _ => true | _ => false end).
 Definition xinit : xshared := XS (RW false 0) 0.
